@@ -290,6 +290,106 @@ def wiring_real(p, inputs):
 
 
 # ---------------------------------------------------------------------------
+# dump -> load: a COO or bedGraph-2D dump loaded back with the same bin table reproduces the pixels
+# ---------------------------------------------------------------------------
+def _named_bins(names, layout, kind):
+    bins = concrete_bins(layout, kind)
+    bins["chrom"] = bins["chrom"].map({f"c{i}": nm for i, nm in enumerate(names)})
+    return bins
+
+
+def _bed(path, bins):
+    with open(path, "w") as f:
+        for c, s_, e in zip(bins["chrom"], bins["start"], bins["end"]):
+            f.write(f"{c}\t{s_}\t{e}\n")
+    return path
+
+
+def dumpload_body(env, p):
+    env.reset()
+    co = env.cooler
+    fmt, upper, K = p["fmt"], p["upper"], p["K"]
+    layout = p["layout"]
+    n = sum(layout)
+    bins = _named_bins(p["names"], layout, p.get("kind", "fixed"))
+    b1, b2, v = env_pixels(env, n, K, upper)
+    src = scratch_file("c16dl.cool")
+    env.build_cooler(src, bins, b1, b2, {"count": v}, upper)
+    one_based = bool(env.bool("one_based"))
+    cs1, cs2 = env.choice("dump_chunk", K + 1) + 1, env.choice("load_chunk", K + 1) + 1
+    txt = scratch_file("c16dl.tsv")
+    bed = _bed(os.path.join(scratch(), "c16dl.bed"), bins)
+    out = scratch_file("c16dl_out.cool")
+    env.cover("several_load_chunks", cs2 < K)
+    D = env.mod("cli.dump")
+    L = env.mod("cli.load")
+    dump_kw = dict(cool_uri=src, table="pixels", columns=None, header=False, na_rep="", float_format="g", range=None, range2=None, fill_lower=False,
+                   balanced=False, join=(fmt == "bg2"), annotate=None, one_based_ids=(one_based and fmt == "coo"),
+                   one_based_starts=(one_based and fmt == "bg2"), chunksize=cs1, out=txt)
+    load_kw = dict(bins_path=bed, pixels_path=txt, cool_path=out, format=fmt, metadata=None, assembly=None, field=(), count_as_float=False,
+                   one_based=one_based, comment_char="#", input_copy_status="unique", no_symmetric_upper=not upper, chunksize=cs2, mergebuf=None,
+                   max_merge=200, temp_dir=None, no_delete_temp=False, storage_options=None, append=False)
+    if env.symbolic:
+        from engine import sympd
+        sympd.CSV_LOG.clear()
+        D.dump.callback(**dump_kw)
+        frames = [f for f in sympd.CSV_LOG if len(f)]
+        dumped = sympd.concat(frames, ignore_index=True) if frames else None
+
+        def read_csv(f, sep=None, usecols=None, names=None, dtype=None, comment=None, iterator=False, chunksize=None, **kw):
+            # stub E6/E9: the text written by to_csv read back by read_csv is the same table; the i-th name is bound to the i-th
+            # smallest selected column; chromosome names stay categorical codes over the known names
+            if f != txt:
+                return getattr(sympd, "read_csv")(f, sep=sep, usecols=usecols, names=names, dtype=dtype, comment=comment, **kw)
+            if dumped is None:
+                return iter([])
+            cols = list(dumped.columns)
+            sel = sorted(usecols)
+            tab = sympd.DataFrame({nm: dumped[cols[c]]._col for nm, c in zip(names, sel)})
+            return iter([tab.iloc[i:i + chunksize].reset_index(drop=True) for i in range(0, len(tab), chunksize)])
+        real_pd = L.pd
+        L.pd = type("pdproxy", (), {"__getattr__": lambda self, k: getattr(sympd, k), "read_csv": staticmethod(read_csv)})()
+        try:
+            L.load.callback(**load_kw)
+        finally:
+            L.pd = real_pd
+    else:
+        D.dump.callback(**dump_kw)
+        L.load.callback(**load_kw)
+    from .model import read_pixels_sym, read_pixels_real, validity_sym, validity_real
+    if env.symbolic:
+        for cond, msg in validity_sym(out):
+            prove(cond, "loaded cooler: " + msg)
+        pix, attrs = read_pixels_sym(out)
+    else:
+        validity_real(out)
+        pix, attrs = read_pixels_real(out)
+    g1, g2, gc = list(pix["bin1_id"]), list(pix["bin2_id"]), list(pix["count"])
+    if len(g1) != K:
+        env.fail(f"dump -> load gave {len(g1)} pixels, the cooler dumped has {K}")
+        return None
+    env.check(and_(*[and_(g1[q] == b1[q], g2[q] == b2[q], gc[q] == v[q]) for q in range(K)]),
+              "a dump loaded back with the same bin table does not reproduce the pixels")
+    return [g1, g2, gc]
+
+
+dumpload_sym, dumpload_real = both(dumpload_body)
+
+
+def _dumpload_cases(tier):
+    out = []
+    for fmt in ("coo", "bg2"):
+        for upper in (True, False):
+            out.append(dict(fmt=fmt, upper=upper, K=2, layout=[2, 1], names=["c0", "c1"]))
+    # a genome whose chromosome names are all digits, bins given as a BED file
+    out.append(dict(fmt="bg2", upper=True, K=1, layout=[2, 1], names=["1", "2"]))
+    if tier != "quick":
+        out.append(dict(fmt="bg2", upper=True, K=3, layout=[2, 2], names=["10", "9"], kind="variable"))
+        out.append(dict(fmt="coo", upper=False, K=3, layout=[3], names=["c0"]))
+    return out
+
+
+# ---------------------------------------------------------------------------
 # zoomify resolution-spec expansion
 # ---------------------------------------------------------------------------
 SPECS = ["b", "n", "4dn", "2b", "2n", "5n", "4B", "3N", "b,7", "10,20", "n,b"]
@@ -396,6 +496,12 @@ CHECKS = [
           bounds=dict(quick="n=3 bins, K=2 pixels, both modes, no region / one region / two regions", thorough="n<=4, K<=3"),
           stubs=("E9 to_csv rendering replaced by a row recorder (real side parses the text back)", "E3", "E4"),
           outside=("CSV number formatting, gzip output", "--balanced / --annotate columns (C12, C14)"), timeout=2400, split_depth=6),
+    Check("dump_load", _dumpload_cases, dumpload_sym, dumpload_real, labels=("several_load_chunks",),
+          doc="cooler dump (COO / joined bedGraph-2D, zero- or one-based, any chunk size) followed by cooler load with the same bin table "
+              "(given as a BED file) and any reader chunk size reproduces the pixel table; text rendering and parsing are stub E6/E9",
+          bounds=dict(quick="3 bins / 2 chromosomes, K<=2 pixels, both storage modes, names c0/c1 and all-digit names", thorough="K=3, variable bins"),
+          stubs=("E6/E9: to_csv followed by read_csv is the identity on the selected columns (i-th name bound to i-th smallest column); "
+                 "the real text path runs on every explored path",), timeout=1500, split_depth=6),
     Check("field_wiring", lambda tier: ([dict(cmd="pairs", maxcol=5, xmin=6), dict(cmd="pairs", fixed_pos=[2, 3, 5, 6])] if tier == "quick" else [dict(cmd="pairs")]) + [dict(cmd="load")], wiring_sym, wiring_real, labels=("non_monotone",),
           doc="cload pairs / load run up to the parser call with symbolic field numbers: under E6 every name is bound to the column the user asked for; "
               "every explored layout is then run end to end through the real command on a text file laid out that way",
